@@ -3,6 +3,6 @@
 d=$1
 for f in $(ls $d/C*-benign*.diff | sort); do
   b=$(basename $f .diff); pid=${b%%-*}
-  out=$(/verif/tools/try_mutant.sh $f $pid 2>&1)
+  out=$(/verif/tools/try_scratch.sh $f $pid 2>&1)
   if echo "$out" | grep -q "VIOLATION\|does not apply\|check:"; then echo "ALARM $b"; echo "$out" | grep "violated\|apply\|check:" | cut -c1-330 | head -4; else echo "quiet $b"; fi
 done
